@@ -93,3 +93,61 @@ Print Assumptions C07_registered_never_exceed_limit_every_history.
 Print Assumptions C07_registered_never_exceed_limit_every_history_q.
 Print Assumptions C07_limit_exact.
 Print Assumptions C07_refused_iff_full.
+
+(* ---- the clients table and the expiry list say what the sessions say, for every history (proofs/Hub_attach.v) ----
+   The model-side statement of the clauses expiring_unattached / clients_attached of digest_C07, in every state
+   reachable from the initial state (any limits, gated or not, any history of operations, step-by-step - every
+   delivery order and every interleaving of completions - or quiescent). *)
+From Verif Require proofs.Hub_own proofs.Hub_attach corr.Hub_preds.
+
+(* The clients table names only live sessions that have a connection; that connection exists and is attached to
+   exactly that session ... *)
+Theorem C07_clients_table_exact : forall limits gated ops h sid,
+  h = run (init limits gated) ops \/ h = qrun (init limits gated) ops ->
+  In sid h.(h_clients) ->
+  exists s c cn, get_sess h sid = Some s /\ s.(s_conn) = Some c /\ aget h.(h_conns) c = Some cn /\ cn.(c_sess) = Some sid.
+Proof. intros limits gated ops h sid R. exact (Hub_attach.clients_table_exact h sid (Hub_own.reachable_intro limits gated ops h R)). Qed.
+(* ... and it names every such session: a session is in the clients table exactly when it has a connection. *)
+Theorem C07_clients_table_iff : forall limits gated ops h sid,
+  h = run (init limits gated) ops \/ h = qrun (init limits gated) ops ->
+  (In sid h.(h_clients) <-> exists s c, get_sess h sid = Some s /\ s.(s_conn) = Some c).
+Proof. intros limits gated ops h sid R. exact (Hub_attach.clients_table_iff h sid (Hub_own.reachable_intro limits gated ops h R)). Qed.
+(* Only sessions without a connection wait for expiry. *)
+Theorem C07_expiring_has_no_connection : forall limits gated ops h sid,
+  h = run (init limits gated) ops \/ h = qrun (init limits gated) ops ->
+  In sid h.(h_expired) -> exists s, get_sess h sid = Some s /\ s.(s_conn) = None.
+Proof. intros limits gated ops h sid R. exact (Hub_attach.expiring_unattached_state h sid (Hub_own.reachable_intro limits gated ops h R)). Qed.
+(* A connection that is attached to a session: the session is live, not virtual, writes to this connection, and the
+   connection does not wait for a hello. *)
+Theorem C07_connection_session_agree : forall limits gated ops h c cn sid,
+  h = run (init limits gated) ops \/ h = qrun (init limits gated) ops ->
+  aget h.(h_conns) c = Some cn -> cn.(c_sess) = Some sid ->
+  exists s, get_sess h sid = Some s /\ s.(s_conn) = Some c /\ is_virtual s.(s_kind) = false /\ cn.(c_expect) = false.
+Proof. intros limits gated ops h c cn sid R. exact (Hub_attach.connection_session_agree h c cn sid (Hub_own.reachable_intro limits gated ops h R)). Qed.
+(* The bridge: on the digest of every reachable model state the two clauses of digest_C07 are true. *)
+Theorem C07_attachment_clauses_on_model_digest : forall limits gated ops h,
+  h = run (init limits gated) ops \/ h = qrun (init limits gated) ops ->
+  Hub_preds.expiring_unattached (Run_Hub.digest_of h) = true /\ Hub_preds.clients_attached (Run_Hub.digest_of h) = true.
+Proof.
+  intros limits gated ops h R. pose proof (Hub_own.reachable_intro limits gated ops h R) as R'.
+  split; [exact (Hub_attach.expiring_unattached_digest h R')|exact (Hub_attach.clients_attached_digest h R')].
+Qed.
+(* Not vacuous: a computed history with a cut, a tick, a resume, a tick (clients table, expiry list, anonymous list,
+   connections with their session and hello flag, sessions with their connection and room). *)
+Example C07_example_attachment :
+  Hub_attach.at_view (run (init [0; 0] false) Hub_attach.at_ops) =
+    ([1], [2], [], [(1, Some 1, false)], [(1, Some 1, Some (0, 1)); (2, None, Some (0, 1))]) /\
+  Hub_attach.at_view (run (init [0; 0] false) (Hub_attach.at_ops ++ Hub_attach.at_resume ++ [OTick 40])) =
+    ([1; 2], [], [], [(1, Some 1, false); (3, Some 2, false)], [(1, Some 1, Some (0, 1)); (2, Some 3, Some (0, 1))]) /\
+  Hub_attach.at_view (run (init [0; 0] false) (Hub_attach.at_ops ++ [OTick 40])) =
+    ([1], [], [], [(1, Some 1, false)], [(1, Some 1, Some (0, 1))]).
+Proof.
+  destruct Hub_attach.at_example as (E1 & _ & E3 & E4 & E5 & _). split; [exact E1|]. split; [|exact E5].
+  rewrite E4. exact E3.
+Qed.
+Print Assumptions C07_clients_table_exact.
+Print Assumptions C07_clients_table_iff.
+Print Assumptions C07_expiring_has_no_connection.
+Print Assumptions C07_connection_session_agree.
+Print Assumptions C07_attachment_clauses_on_model_digest.
+Print Assumptions C07_example_attachment.
